@@ -28,6 +28,23 @@ MODULE_FILES = {
 }
 
 
+# harness modules that use helpers of other harness modules
+MODULE_DEPS = {
+    'decoder': ['vlq'],
+    'hermes': ['vlq', 'types'],
+    'encoder': [],
+}
+
+
+def with_deps(modules):
+    out = []
+    for m in modules:
+        for d in MODULE_DEPS.get(m, []) + [m]:
+            if d not in out:
+                out.append(d)
+    return out
+
+
 class MachineryError(Exception):
     pass
 
@@ -72,7 +89,7 @@ def inject(repo_copy, modules, lift_specs, extra_src=None):
                 '\n#[cfg(kani)]\n#[path = "verif_vstubs.rs"]\npub(crate) mod vstubs;\n')
     with open(lib, 'w', encoding='utf-8') as f:
         f.write(lib_text)
-    for m in modules:
+    for m in with_deps(modules):
         hfile = os.path.join(HARNESS_DIR, 'h_%s.rs' % m)
         with open(hfile, encoding='utf-8') as f:
             htext = f.read()
@@ -95,7 +112,7 @@ def inject(repo_copy, modules, lift_specs, extra_src=None):
             f.write(htext)
         target = os.path.join(repo_copy, MODULE_FILES[m])
         with open(target, 'a', encoding='utf-8') as f:
-            f.write('\n#[cfg(kani)]\n#[path = "verif_h_%s.rs"]\nmod verif_h;\n' % m)
+            f.write('\n#[cfg(kani)]\n#[path = "verif_h_%s.rs"]\npub(crate) mod verif_h;\n' % m)
     return lifts
 
 
@@ -174,7 +191,7 @@ def parse_log(path):
                 out['verdict'] = s.split(':-', 1)[1].strip().split()[0]
             if s.startswith('Runtime Symex:'):
                 out['symex_s'] = float(s.split(':')[1].strip().rstrip('s'))
-            if s.startswith('Runtime Solver:') or s.startswith('Runtime decision procedure:'):
+            if s.startswith('Runtime decision procedure:'):
                 try:
                     out['solver_s'] += float(s.split(':')[1].strip().rstrip('s'))
                 except ValueError:
